@@ -4,5 +4,5 @@ export VERIF_REPO=${VP_RUN_REPO:-/repo}
 ./setup.sh > setup.log 2>&1
 P=${1:-3}
 for p in C03 C05 C19 C20 C01 C02 C04 C06 C07 C09 C10 C11 C12 C13 C14 C15 C16 C17 C18 C08; do echo $p; done |
-  xargs -P $P -I{} bash -c './check {} --tier thorough 2>&1 | grep -v KNOWN-FINDING | tail -1' > thorough.log 2>&1
+  xargs -P $P -I{} bash -c './check {} --tier thorough 2>&1 | grep -v KNOWN-FINDING | tail -1; rm -rf build/run/{}' > thorough.log 2>&1
 grep -c "^OK" thorough.log; grep -v "^OK" thorough.log
